@@ -356,8 +356,8 @@ func checkSeq(t *core.T, items []item) {
 		func(r batch.Result) error {
 			n++
 			got, _ := observed(r.Decision, r.Diagnostic)
-			// batch reports the decision and reasons; errors of partially evaluated policies are reported too
-			if got.allow != b.want.allow || fmt.Sprint(got.reasons) != fmt.Sprint(b.want.reasons) {
+			// batch with a concrete request is an authorizer like the others: decision, reasons and errors
+			if got.String() != b.want.String() {
 				t.Fail("batch.Authorize:"+diffKind(b.want, got), in("batch.Authorize"), b.want.String(), got.String())
 			}
 			return nil
